@@ -73,7 +73,10 @@ func write(ctx context.Context, st state.State, i int) {
 
 type ev struct {
 	e  wx.Ev
-	bm []byte
+	bm []byte // the bookmark as delivered (the consumer's to keep)
+	// bmAtDelivery: a private copy taken on delivery; the delivered slice must still hold these bytes when it
+	// is used, however many events were published meanwhile (seed c12i: bookmarks cut from a reused slab)
+	bmAtDelivery []byte
 }
 
 // collector drains a watch channel into a slice.
@@ -93,7 +96,7 @@ func (c *collector) take(e state.Event) {
 		c.errored = true
 		return
 	}
-	c.got = append(c.got, ev{wx.Render(e), e.Bookmark})
+	c.got = append(c.got, ev{wx.Render(e), e.Bookmark, bytes.Clone(e.Bookmark)})
 }
 
 func (c *collector) evs() []wx.Ev {
@@ -250,6 +253,10 @@ func runCase(x *explore.X, cfg ringCfg, w, further int) int {
 			for i, g := range r.got {
 				if g.bm == nil {
 					continue
+				}
+				if !bytes.Equal(g.bm, g.bmAtDelivery) {
+					fail("c12/bookmark-changed-after-delivery", "the bookmark delivered with event %d of %s was %x and reads %x after %d more events: a held bookmark no longer names its own position", i, r.name, g.bmAtDelivery, g.bm, n-i)
+					return
 				}
 				p := posOf(g.bm)
 				recent := int64(n)-p <= int64(cfg.initial-cfg.gap)
